@@ -35,10 +35,10 @@ def corpus_wbxml(harness):
     for f, a in zip(xs, ans):
         if a and a.startswith("st=0 ") and " out=" in a:
             out.append((os.path.relpath(f, common.REPO), a.split(" out=")[1].split(" ")[0]))
-    with open(cache + ".tmp", "w") as fh:
+    with open(cache + (".tmp%d" % os.getpid()), "w") as fh:
         for n, h in out:
             fh.write("%s %s\n" % (n, h))
-    os.rename(cache + ".tmp", cache)
+    os.rename(cache + (".tmp%d" % os.getpid()), cache)
     return out
 
 
